@@ -115,7 +115,13 @@ class Check:
             m = re.match(r".*AUDIT (\S+) \[(.*)\]\s*$", line)
             if m:
                 axs = [a.strip() for a in m.group(2).split(",") if a.strip()]
-                thms.append((m.group(1), axs))
+                name = m.group(1)
+                # only the property's own theorems: skip auto-generated equation/match lemmas
+                if re.search(r"\.(eq_\d+|eq_def|match_\d+.*|proof_\d+|congr_simp|sizeOf_spec|injEq|inj)$", name):
+                    continue
+                if not name.startswith("MV.%s." % self.pid):
+                    continue
+                thms.append((name, axs))
         if rc != 0 or not thms:
             self.broken("audit", "axiom audit of %s failed (rc=%s):\n%s" % (module, rc, out[-2000:]))
             return False
